@@ -720,6 +720,134 @@ func runStuck(qsize int) StuckTrace {
 	return tr
 }
 
+// WildTrace: a udp server bound to the wildcard address is reachable on every local address; one remote socket that
+// talks to 127.0.0.1:p, 127.0.0.2:p and 127.0.0.3:p talks to three endpoints: "one logical connection per (remote,
+// local) address pair" - each with its own message-ID space, its own life cycle, answering from the address contacted.
+type WildDst struct {
+	Dst      string `json:"dst"`
+	Answered bool   `json:"answered"`
+	TokOK    bool   `json:"tokok"`
+	EchoOK   bool   `json:"echook"`   // the response carries the path of THIS request (not a remembered reply to another endpoint)
+	From     string `json:"from"`     // source address of the response
+	CCLocal  string `json:"cclocal"`  // LocalAddr of the connection the handler ran on
+	Conn     int    `json:"conn"`     // identity of that connection (0 = the handler never ran)
+	Nth      int    `json:"nth"`      // how many requests that connection had served, this one included
+	Again    bool   `json:"again"`    // a second request (new MID) was answered ...
+	AgainNth int    `json:"againNth"` // ... as the n-th request of the same connection
+	Closed   bool   `json:"closed"`   // the connection was closed when the scenario ended
+}
+type WildTrace struct {
+	Op       string    `json:"op"` // wild
+	Usable   bool      `json:"usable"`
+	NewConns int       `json:"newconns"`
+	D        []WildDst `json:"d"`
+}
+
+func runWild() WildTrace {
+	tr := WildTrace{Op: "wild", D: []WildDst{}}
+	l, err := coapNet.NewListenUDP("udp4", "0.0.0.0:0")
+	if err != nil {
+		rec.Die("listen udp: %v", err)
+	}
+	defer func() { _ = l.Close() }()
+	port := l.LocalAddr().(*net.UDPAddr).Port
+	var mu sync.Mutex
+	ids := map[*udpclient.Conn]int{}
+	nth := map[*udpclient.Conn]int{}
+	closed := map[int]bool{}
+	type ran struct {
+		conn, nth int
+		local     string
+	}
+	runs := map[string]ran{} // by token
+	sv := udp.NewServer(options.WithErrors(func(error) {}),
+		options.WithOnNewConn(func(cc *udpclient.Conn) {
+			mu.Lock()
+			ids[cc] = len(ids) + 1
+			id := ids[cc]
+			mu.Unlock()
+			cc.AddOnClose(func() { mu.Lock(); closed[id] = true; mu.Unlock() })
+		}),
+		options.WithHandlerFunc(func(w *responsewriter.ResponseWriter[*udpclient.Conn], r *pool.Message) {
+			cc := w.Conn()
+			mu.Lock()
+			nth[cc]++
+			runs[string(r.Token())] = ran{ids[cc], nth[cc], cc.LocalAddr().String()}
+			mu.Unlock()
+			p, _ := r.Path()
+			_ = w.SetResponse(codes.Content, message.TextPlain, bytes.NewReader([]byte(p)))
+		}))
+	served := make(chan error, 1)
+	go func() { served <- sv.Serve(l) }()
+	defer func() { sv.Stop(); <-served }()
+	sock, err := net.ListenUDP("udp4", &net.UDPAddr{IP: net.IPv4(127, 0, 0, 1)})
+	if err != nil {
+		rec.Die("listen: %v", err)
+	}
+	defer sock.Close()
+	ask := func(dst *net.UDPAddr, mid int32, tok []byte, path string) (ok, tokok, echook bool, from string, sendErr bool) {
+		if _, err := sock.WriteToUDP(memnet.Build(message.Confirmable, int(codes.GET), mid, tok, message.Options{{ID: message.URIPath, Value: []byte(path)}}, nil), dst); err != nil {
+			return false, false, false, "", true
+		}
+		buf := make([]byte, 1500)
+		_ = sock.SetReadDeadline(time.Now().Add(1500 * time.Millisecond))
+		k, src, err := sock.ReadFromUDP(buf)
+		if err != nil {
+			return false, false, false, "", false
+		}
+		d, err := memnet.Parse(buf[:k])
+		if err != nil || d.MID != mid {
+			return false, false, false, src.String(), false
+		}
+		return true, bytes.Equal(d.Token, tok), string(d.Payload) == "/"+path, src.String(), false
+	}
+	tr.Usable = true
+	octets := []byte{1, 2, 3}
+	for _, o := range octets {
+		dst := &net.UDPAddr{IP: net.IPv4(127, 0, 0, o), Port: port}
+		tok := []byte{0xD0, o}
+		// the SAME message ID towards every endpoint: each endpoint has its own de-duplication
+		ok, tokok, echook, from, sendErr := ask(dst, 0x1234, tok, fmt.Sprintf("w%d", o))
+		if sendErr {
+			tr.Usable = false // this host cannot reach 127.0.0.x: nothing to judge
+			return tr
+		}
+		mu.Lock()
+		r := runs[string(tok)]
+		mu.Unlock()
+		tr.D = append(tr.D, WildDst{Dst: dst.String(), Answered: ok, TokOK: tokok, EchoOK: echook, From: from, CCLocal: r.local, Conn: r.conn, Nth: r.nth})
+	}
+	// the connection of the first endpoint is closed: the others live on and keep counting
+	mu.Lock()
+	var first *udpclient.Conn
+	for cc, id := range ids {
+		if id == tr.D[0].Conn {
+			first = cc
+		}
+	}
+	mu.Unlock()
+	if first != nil {
+		_ = first.Close()
+	}
+	for k := 1; k < len(octets); k++ {
+		dst := &net.UDPAddr{IP: net.IPv4(127, 0, 0, octets[k]), Port: port}
+		tok := []byte{0xD1, octets[k]}
+		ok, tokok, echook, _, _ := ask(dst, int32(0x2000+k), tok, fmt.Sprintf("x%d", octets[k]))
+		mu.Lock()
+		r := runs[string(tok)]
+		mu.Unlock()
+		tr.D[k].Again = ok && tokok && echook && r.conn == tr.D[k].Conn
+		tr.D[k].AgainNth = r.nth
+	}
+	mu.Lock()
+	tr.NewConns = len(ids)
+	for k := range tr.D {
+		tr.D[k].Closed = closed[tr.D[k].Conn]
+	}
+	mu.Unlock()
+	return tr
+}
+
 // Run replays every stimulus on every transport of this tier, then the discovery scenario.
 func Run(stimPath, out string) {
 	fh, err := os.Open(stimPath)
@@ -780,4 +908,5 @@ func Run(stimPath, out string) {
 	for _, q := range []int{1, 2, 16} {
 		wr.Put(runStuck(q))
 	}
+	wr.Put(runWild())
 }
